@@ -7,6 +7,7 @@ CONSTANTS
   Vals = {"o1"}
   Depth = 5
   MaxObjs = 3
+  Parents = {"none"}
   Variant = "impl"
 INVARIANT ExactlyOnce
 INVARIANT RightList
